@@ -14,8 +14,8 @@ use vf_engine::{
     CaseCtx, Check,
 };
 
-mod auth;
-mod entry;
+use vf_wire::entry;
+
 
 const STACK: usize = 2 << 20;
 const CANARY_EVERY: u64 = 250;
@@ -556,6 +556,125 @@ fn oracle(c: &WireCase, cx: &mut CaseCtx) -> Result<(), String> {
     })
 }
 
+/// Coverage-guided stage: the libFuzzer target /verif/fuzz (byte 0 selects the entry point) is
+/// built from the current tree and run as 8 processes with distinct seeds from the valid seeds
+/// of every entry point. Every artifact (crash-*, timeout-*, oom-*) is re-judged by the
+/// supervised-worker oracle; the final corpus is absorbed into the statistics. When the target
+/// cannot be built (no nightly toolchain / cargo-fuzz) the stage is skipped and says so.
+fn libfuzzer_campaign(col: &mut vf_engine::Collector<WireCase>, seed: u64, runs: u64) -> String {
+    use std::process::{Command, Stdio};
+    let fuzz_dir = "/verif/fuzz";
+    let build = Command::new("cargo")
+        .args(["+nightly", "fuzz", "build", "--fuzz-dir", fuzz_dir, "wire"])
+        .current_dir(fuzz_dir)
+        .env("CARGO_NET_OFFLINE", "true")
+        .env_remove("RUSTUP_TOOLCHAIN")
+        .stdout(Stdio::null())
+        .stderr(Stdio::piped())
+        .output();
+    let bin = format!("{fuzz_dir}/target/x86_64-unknown-linux-gnu/release/wire");
+    match build {
+        Ok(o) if o.status.success() && std::path::Path::new(&bin).exists() => {}
+        Ok(o) => return format!("skipped: fuzz target does not build: {}", String::from_utf8_lossy(&o.stderr).lines().rev().take(3).collect::<Vec<_>>().join(" | ")),
+        Err(e) => return format!("skipped: cannot run cargo fuzz: {e}"),
+    }
+    let work = format!("{fuzz_dir}/work/{}", std::process::id());
+    let _ = std::fs::remove_dir_all(&work);
+    let sel_of = |ep: &str| entry::ENTRY_POINTS.iter().position(|e| *e == ep).unwrap_or(0) as u8;
+    let nproc = 8u64;
+    let mut children = vec![];
+    for k in 0..nproc {
+        let (corpus, arts) = (format!("{work}/corpus{k}"), format!("{work}/artifacts{k}/"));
+        let _ = std::fs::create_dir_all(&corpus);
+        let _ = std::fs::create_dir_all(&arts);
+        let mut i = 0;
+        for ep in entry::ENTRY_POINTS {
+            for s in seeds(ep) {
+                if s.len() < 4000 {
+                    let mut f = vec![sel_of(ep)];
+                    f.extend_from_slice(&s);
+                    let _ = std::fs::write(format!("{corpus}/seed{i:04}"), f);
+                    i += 1;
+                }
+            }
+        }
+        let child = Command::new(&bin)
+            .arg(&corpus)
+            .args([format!("-runs={}", runs / nproc), "-max_len=4096".into(), "-len_control=0".into(), "-timeout=20".into(), "-rss_limit_mb=4096".into(), format!("-seed={}", seed * nproc + k + 1), format!("-artifact_prefix={arts}"), "-print_final_stats=1".into(), "-verbosity=0".into()])
+            .stdout(Stdio::null())
+            .stderr(Stdio::piped())
+            .spawn();
+        match child {
+            Ok(c) => children.push((k, c)),
+            Err(e) => return format!("skipped: cannot start the fuzz target: {e}"),
+        }
+    }
+    let mut execs = 0u64;
+    let mut artifacts = vec![];
+    for (k, c) in children {
+        let out = match c.wait_with_output() {
+            Ok(o) => o,
+            Err(e) => {
+                col.infra(format!("fuzz process {k}: {e}"));
+                continue;
+            }
+        };
+        let err = String::from_utf8_lossy(&out.stderr);
+        for l in err.lines() {
+            if let Some(n) = l.strip_prefix("stat::number_of_executed_units:") {
+                execs += n.trim().parse::<u64>().unwrap_or(0);
+            }
+        }
+        if let Ok(rd) = std::fs::read_dir(format!("{work}/artifacts{k}")) {
+            for f in rd.flatten() {
+                artifacts.push(f.path());
+            }
+        }
+        if !out.status.success() && std::fs::read_dir(format!("{work}/artifacts{k}")).map(|d| d.count()).unwrap_or(0) == 0 {
+            col.infra(format!("fuzz process {k} ended with {} and left no artifact: {}", out.status, err.lines().rev().take(3).collect::<Vec<_>>().join(" | ")));
+        }
+    }
+    let decode = |data: &[u8]| -> Option<WireCase> {
+        let (sel, payload) = data.split_first()?;
+        Some(WireCase::new(entry::ENTRY_POINTS[*sel as usize % entry::ENTRY_POINTS.len()], payload.to_vec()))
+    };
+    let mut reproduced = 0;
+    for a in &artifacts {
+        let Some(case) = std::fs::read(a).ok().and_then(|d| decode(&d)) else { continue };
+        let mut cx = col.ctx();
+        match oracle(&case, &mut cx) {
+            Err(msg) => {
+                reproduced += 1;
+                col.fail(&case, format!("{msg} (found by libFuzzer: {})", a.file_name().and_then(|n| n.to_str()).unwrap_or("")));
+            }
+            Ok(()) => col.infra(format!("libFuzzer artifact {} ({}, {} bytes) does not reproduce under the supervised worker", a.display(), case.ep, case.payload().len())),
+        }
+    }
+    // absorb the final corpora (inputs libFuzzer kept because they reached new code)
+    let mut corpus_files = 0u64;
+    let mut first = true;
+    for k in 0..nproc {
+        if let Ok(rd) = std::fs::read_dir(format!("{work}/corpus{k}")) {
+            for f in rd.flatten() {
+                let Some(case) = std::fs::read(f.path()).ok().and_then(|d| decode(&d)) else { continue };
+                let mut cx = col.ctx();
+                let out = no_panic(|| entry::call(&case.ep, case.payload())).unwrap_or_default();
+                cx.class(if out.starts_with("bad") || out.starts_with("notutf8") { "rejected_at_first_gate" } else { "past_first_gate" });
+                cx.class("libfuzzer_corpus_entry");
+                cx.nontrivial_if(!out.starts_with("bad") && !out.starts_with("notutf8"));
+                corpus_files += 1;
+                if first {
+                    cx.more_evals(execs.saturating_sub(1));
+                    first = false;
+                }
+                col.ok(&case, cx);
+            }
+        }
+    }
+    let _ = std::fs::remove_dir_all(&work);
+    format!("{execs} executions in {nproc} processes (seed {seed}), {corpus_files} corpus entries kept, {} artifacts, {reproduced} reproduced", artifacts.len())
+}
+
 static HANG_CONFIRMED: std::sync::atomic::AtomicBool = std::sync::atomic::AtomicBool::new(false);
 
 fn worker_main() -> ! {
@@ -600,6 +719,15 @@ fn main() {
     }
     for cls in ["family_identifiers", "family_uris", "family_json_events", "family_http_messages", "family_headers", "family_push", "family_signatures", "family_state_res", "family_html", "rejected_input", "accepted_input", "canary_checked"] {
         ck.floor("mutated_seeds", cls, 100);
+    }
+    if ck.thorough() || ck.selected("libfuzzer_campaign") || ck.is_replay() {
+        let (seed, runs) = (ck.seed, if ck.thorough() { 4_000_000u64 } else { 300_000 });
+        let mut note = String::new();
+        ck.custom::<WireCase, _, _>("libfuzzer_campaign", "coverage-guided fuzzing (libFuzzer), 8 processes", |col| note = libfuzzer_campaign(col, seed, runs), oracle);
+        ck.extra("libfuzzer_campaign", json!(note));
+        for e in INFRA.lock().unwrap().drain(..) {
+            ck.infra_error(e);
+        }
     }
     ck.finish()
 }
